@@ -378,7 +378,23 @@ class C17(Spec):
         return us
 
 
-_SPECS = {'C08': C08, 'C09': C09, 'C10': C10, 'C11': C11, 'C13': C13, 'C15': C15, 'C16': C16, 'C17': C17, 'C18': C18, 'C01': C01, 'C02': C02, 'C03': C03, 'C04': C04, 'C05': C05, 'C06': C06, 'C07': C07}
+class C12(Spec):
+    design_ref = 'DESIGN.md 4/C12'
+    level_text = ('the library is instantiated over a forward-mode dual number that clones the ceres::Jet interface (Dual<DoF>); on reduced-lattice inputs (incl. theta = 0 where the perturbation sits on the small-angle branch boundary, '
+                  'and the small-angle region) every operation must return the double primal and the dual parts of f(X (+) d) (-) f(X) at d = 0 must equal the analytic Jacobian of the same call over double; '
+                  'the four ceres functors are driven through raw pointers for double and Dual; float instantiations are compared with double')
+    rule = 'cells = lattice input pairs x (14 operations x {primal, derivative wrt each argument}, 8 functor calls, 7 float/double comparisons); non-trivial = non-zero rotations'
+    explanation = 'explicit enumeration on the real code instantiated over dual numbers; oracle = analytic Jacobians over double (themselves judged against the reference model by C05) and member functions'
+    assumptions = COMMON_ASSUMPTIONS + ['engine/dual.hpp reproduces the ceres::Jet interface (ceres itself is not installed); manif/ceres/*.h functors depend only on Eigen and are included directly']
+
+    def units(self, tier):
+        us = lattice_units('checks/c12.cpp', scalars=['double'], builds=('assert',), defs=['VF_FN_ALL=1'], shards=(lambda g, s: 2 if tier == 'thorough' else 1))
+        for u in us:
+            u.bisect = [('operations_over_dual', ['VF_FN=1']), ('ceres_functors', ['VF_FN=2'])]
+        return us
+
+
+_SPECS = {'C08': C08, 'C09': C09, 'C10': C10, 'C11': C11, 'C12': C12, 'C13': C13, 'C15': C15, 'C16': C16, 'C17': C17, 'C18': C18, 'C01': C01, 'C02': C02, 'C03': C03, 'C04': C04, 'C05': C05, 'C06': C06, 'C07': C07}
 
 
 def get(prop):
